@@ -196,6 +196,36 @@ func genDetectTable() {
 func genFilterTable() {
 	cs := switchWithCase("core", "FlateDecode")
 	if cs == nil {
+		if filtersFile != "" {
+			if raw, err := os.ReadFile(filtersFile); err == nil {
+				var fb struct {
+					Rows []struct {
+						Names []string `json:"names"`
+						Class string   `json:"class"`
+					} `json:"rows"`
+				}
+				if json.Unmarshal(raw, &fb) == nil && len(fb.Rows) > 0 {
+					// the name dispatch is not a switch: take what the built package does
+					// with each candidate name (`harness filters`)
+					var cs2 []swCase
+					for _, r := range fb.Rows {
+						body := "return " + r.Class
+						if strings.HasPrefix(r.Class, "filters.") {
+							body = "return " + r.Class + "(data)"
+						}
+						cs2 = append(cs2, swCase{Lits: r.Names, Body: body})
+					}
+					var b strings.Builder
+					b.WriteString(header + "-- (from the behaviour of the built package: no switch with a case \"FlateDecode\" in package core)\nnamespace Tabula.Gen.Tables\n\n")
+					b.WriteString(leanSwitch("filterNameCases", cs2))
+					b.WriteString("\n")
+					b.WriteString(leanSwitchBytes("filterNameCasesB", cs2))
+					b.WriteString("\nend Tabula.Gen.Tables\n")
+					write("FilterTable.lean", b.String())
+					return
+				}
+			}
+		}
 		fatal("core: no switch with a case \"FlateDecode\"")
 	}
 	var b strings.Builder
